@@ -854,11 +854,13 @@ def v_lambda(run):
 
 @harness(['C01', 'C02', 'C03', 'C05', 'C13'], 'supp.nast.extract_visitor.visit_ClassDef + ClassScope.__init__')
 def v_classdef(run):
-    """@d class C(base, metaclass=M): B — decorator, bases and keyword values in the enclosing region from V, before C is bound;
+    """@d class C(base, metaclass=M): B — decorator, bases and keyword values evaluated in that order in the enclosing scope, before C is bound;
     B in a class scope whose parent is the enclosing scope; afterwards C is bound"""
     def build():
         sk = Skeleton()
-        d, base, kwv, b = sk.child('expr', 'decorator'), sk.child('expr', 'base'), sk.child('expr', 'keyword'), sk.child('stmts', 'body')
+        # decorator, base and keyword value may bind (a walrus) and may end in a region of their own (a comprehension inside them)
+        d, base, kwv, b = (sk.child('expr', 'decorator', effects=True), sk.child('expr', 'base', effects=True),
+                           sk.child('expr', 'keyword', effects=True), sk.child('stmts', 'body'))
         kw, nxt = Pos('class'), Pos('next-statement')
         sk.facts += px_facts(kw) + [le(d.end.t, kw.t), lt(kw.t, base.start.t), le(base.end.t, kwv.start.t), le(kwv.end.t, b.start.t), le(b.end.t, nxt.t)]
         sk.node = kw.put(ast.ClassDef(name='C', bases=[base.node()], keywords=[ast.keyword(arg='metaclass', value=kwv.node())],
@@ -869,7 +871,8 @@ def v_classdef(run):
     def check(sk, g, v, path):
         import supp.scope as S
         fs = all_facts(sk)
-        check_entries(sk, g, path, [(sk.d, ID), (sk.base, ID), (sk.kwv, ID)], fs)
+        hdr = sk.d.tr.then(sk.base.tr).then(sk.kwv.tr)
+        check_entries(sk, g, path, [(sk.d, ID), (sk.base, sk.d.tr), (sk.kwv, sk.d.tr.then(sk.base.tr))], fs)
         cb = [(Fl, e) for Fl in g.top_scope._all_flows for e in Fl._names if isinstance(e, S.ClassScope)]
         prove('class-name-bound-once[C01]', len(cb) == 1 and cb[0][0].scope is g.top_scope, path=path)
         if len(cb) != 1:
@@ -878,7 +881,7 @@ def v_classdef(run):
         prove('class-scope-parent-is-enclosing-scope[C05]', scope.parent is g.top_scope, path=path)
         if sk.b.visits:
             prove('body-runs-in-the-class-scope[C05]', sk.b.visits[0][1].scope is scope, path=path)
-        tr = bind(g.def_of(scope), g.n == g.ident('C'))
+        tr = hdr.then(bind(g.def_of(scope), g.n == g.ident('C')))
         prove_eq('after-statement', g.view_at(v.flow, sk.nxt.t), tr(g.V0), 'C is bound right after the class statement', path, fs)
         check_exit(sk, g, v, path, tr, fs)
     run_skeleton(build, check)
@@ -891,9 +894,11 @@ def comp_harness(kind):
     def h(run):
         def build():
             sk = Skeleton()
-            e1, c1, e2, elt = sk.child('expr', 'iter1'), sk.child('expr', 'cond1', effects=True), sk.child('expr', 'iter2'), sk.child('expr', 'element')
+            # every sub-expression may bind (a walrus) and may end in a region of its own (a comprehension inside it)
+            e1, c1, e2, elt = (sk.child('expr', 'iter1', effects=True), sk.child('expr', 'cond1', effects=True),
+                               sk.child('expr', 'iter2', effects=True), sk.child('expr', 'element', effects=True))
             c2 = sk.child('expr', 'cond2', effects=True)
-            val = sk.child('expr', 'value') if kind == 'DictComp' else None
+            val = sk.child('expr', 'value', effects=True) if kind == 'DictComp' else None
             kw, p1, p2 = Pos('comp'), Pos('x1'), Pos('x2')
             sk.facts += px_facts(kw) + [lt(kw.t, elt.start.t)]
             lastp = elt.end
@@ -921,16 +926,23 @@ def comp_harness(kind):
             t1 = bind(g.def_of(b1[0][1]), g.n == g.ident('x1'))
             t2 = bind(g.def_of(b2[0][1]), g.n == g.ident('x2'))
             # evaluation order (language reference 6.2.4): e1, x1 bound, c1 (may bind through a walrus), e2, x2 bound, then the element
-            tc, tc2 = sk.c1.tr, sk.c2.tr
-            full = t1.then(tc).then(t2).then(tc2)
-            ents = [(sk.e1, ID), (sk.c1, t1), (sk.e2, t1.then(tc)), (sk.c2, t1.then(tc).then(t2)), (sk.elt, full)]
+            # (for a dict comprehension: the key, then the value)
+            chain = [sk.e1.tr, t1, sk.c1.tr, sk.e2.tr, t2, sk.c2.tr, sk.elt.tr] + ([sk.val.tr] if sk.val else [])
+            pre = [ID]
+            for t in chain:
+                pre.append(pre[-1].then(t))
+            ents = [(sk.e1, pre[0]), (sk.c1, pre[2]), (sk.e2, pre[3]), (sk.c2, pre[5]), (sk.elt, pre[6])]
             if sk.val:
-                ents.append((sk.val, full))
+                ents.append((sk.val, pre[7]))
             check_entries(sk, g, path, ents, fs)
-            # nothing leaks except through the comprehension variables themselves (reading them afterwards is outside C03's domain)
-            # and through a walrus in a condition (which binds in the enclosing scope by design)
-            other = [g.n != g.ident('x1'), g.n != g.ident('x2'), sk.c1.G == EMPTY, sk.c1.P, sk.c2.G == EMPTY, sk.c2.P]
-            prove_eq('exit-for-other-identifiers', g.view_end(v.flow), g.V0, 'the comprehension binds nothing in the enclosing scope', path, fs + other)
+            # afterwards, for every identifier but the comprehension variables (reading those afterwards is outside C03's domain): the first
+            # iterable is always evaluated; what the rest binds (a walrus binds in the enclosing scope) is there when everything ran, and nothing is
+            # there that no prefix of the evaluation order produces
+            other = [g.n != g.ident('x1'), g.n != g.ident('x2')]
+            lo = pre[1].join(pre[-1])
+            hi = joins(pre[1:])
+            prove_between('exit-for-other-identifiers', g.view_end(v.flow), lo(g.V0), hi(g.V0),
+                          'after the comprehension: what its first iterable leaves, joined with what a complete evaluation binds', path, fs + other)
         run_skeleton(build, check)
     h.__name__ = 'v_' + kind.lower()
     h.__doc__ = ('[elt for x1 in e1 if c1 for x2 in e2]: e1 from V; c1 and e2 from V[x1]; the element from V[x1][x2]; '
